@@ -288,6 +288,12 @@ fn check_all(tier: Tier, out: &mut ChunkResult, only: Option<&J>) -> Vec<Violati
     let mut vs: Vec<Violation> = Vec::new();
     let find = |n: &str| u.iter().position(|e| e.name == n);
     if let Some(case) = only {
+        if case["law"].as_str().map(|l| l.starts_with("mutation")).unwrap_or(false) {
+            mutation_histories(&mut vs, out);
+            let law = case["law"].as_str().unwrap_or("");
+            vs.retain(|v| v.key == law);
+            return vs;
+        }
         if case["law"].as_str().map(|l| l.starts_with("layout")).unwrap_or(false) {
             layout_pairs(&mut vm, &mut vs, out);
             let law = case["law"].as_str().unwrap_or("");
@@ -353,6 +359,7 @@ fn check_all(tier: Tier, out: &mut ChunkResult, only: Option<&J>) -> Vec<Violati
         }
     }
     layout_pairs(&mut vm, &mut vs, out);
+    mutation_histories(&mut vs, out);
     if tier == Tier::Thorough || tier == Tier::Quick {
         script_pairs(&u, None, &mut vs, out);
     }
@@ -443,6 +450,74 @@ fn layout_pairs(vm: &mut Vm<()>, vs: &mut Vec<Violation>, out: &mut ChunkResult)
     }
 }
 
+/// Equality and hashing stay coherent while tables change: outer = {0: mid, "s": 1}, mid = {0: inner},
+/// inner = {}. Every history (depth 4) of: hash / compare one of the three, insert into / overwrite in
+/// / pop from one of the three through its own handle; after every step each of the three is compared
+/// with a structural copy built from fresh objects: they must be equal and hash equally.
+fn mutation_histories(vs: &mut Vec<Violation>, out: &mut ChunkResult) {
+    const OPS: u64 = 15;
+    const DEPTH: u32 = 4;
+    let total = OPS.pow(DEPTH);
+    for code in 0..total {
+        let mut vm: Vm<()> = Vm::new(()).unwrap();
+        let mut inner = vm.init_table().unwrap();
+        let mut mid = vm.init_table().unwrap();
+        let mut outer = vm.init_table().unwrap();
+        let (iv, mv, ov) = (Value::Object(std::ptr::NonNull::from(&*inner)), Value::Object(std::ptr::NonNull::from(&*mid)), Value::Object(std::ptr::NonNull::from(&*outer)));
+        mid.as_table_mut().unwrap().insert(Value::Integer(0), iv).unwrap();
+        outer.as_table_mut().unwrap().insert(Value::Integer(0), mv).unwrap();
+        outer.as_table_mut().unwrap().insert(Value::Integer(5), Value::Integer(1)).unwrap();
+        let mut c = code;
+        let mut hist: Vec<u64> = Vec::new();
+        let mut sink = 0u64;
+        for step in 0..DEPTH {
+            let op = c % OPS;
+            c /= OPS;
+            hist.push(op);
+            let which = (op % 3) as usize;
+            let vals = [iv, mv, ov];
+            let tabs: [&mut cao_lang::vm::runtime::cao_lang_object::CaoLangObject; 3] = [&mut *inner, &mut *mid, &mut *outer];
+            match op / 3 {
+                0 => sink ^= hash_of(&vals[which]),
+                1 => sink ^= (vals[which] == vals[(which + 1) % 3]) as u64,
+                2 => {
+                    let _ = tabs.into_iter().nth(which).unwrap().as_table_mut().unwrap().insert(Value::Integer(10 + step as i64), Value::Integer(step as i64));
+                }
+                3 => {
+                    let _ = tabs.into_iter().nth(which).unwrap().as_table_mut().unwrap().insert(Value::Integer(5), Value::Integer(100 + step as i64));
+                }
+                _ => {
+                    // never pops the link to the nested table (entry 0 is the oldest)
+                    let t = tabs.into_iter().nth(which).unwrap().as_table_mut().unwrap();
+                    if t.len() > 1 {
+                        let _ = t.pop();
+                    }
+                }
+            }
+            out.evaluations += 1;
+            out.transitions += 1;
+            for (name, v) in [("inner", iv), ("mid", mv), ("outer", ov)] {
+                let Ok(owned) = OwnedValue::try_from(v) else { continue };
+                let Ok(copy) = vm.insert_value(&owned) else { continue };
+                let _keep = match copy {
+                    Value::Object(o) => Some(cao_lang::vm::runtime::cao_lang_object::ObjectGcGuard::new(o)),
+                    _ => None,
+                };
+                if v != copy {
+                    if vs.len() < 5 {
+                        vs.push(viol("mutation-eq", format!("history {hist:?}: {name} is not equal to a structural copy of itself"), &[name]));
+                    }
+                } else if hash_of(&v) != hash_of(&copy) && vs.len() < 5 {
+                    vs.push(viol("mutation-eq-hash", format!("history {hist:?}: {name} equals a copy built from fresh objects but hashes differently ({} vs {})", hash_of(&v), hash_of(&copy)), &[name]));
+                }
+            }
+        }
+        let _ = sink;
+        out.nontrivial += 1;
+    }
+    out.count("mutation_histories", total);
+}
+
 /// script seam: the same pairs through compiled cards must agree with the host-level results
 fn script_pairs(u: &[Elem], only: Option<(usize, usize)>, vs: &mut Vec<Violation>, out: &mut ChunkResult) {
     let natives = refsem::default_natives();
@@ -496,7 +571,7 @@ impl Check for C19 {
     }
     fn info(&self, _tier: Tier) -> CheckInfo {
         CheckInfo {
-            rule: "finite universe built through the host API of one real VM: nil; ints {0,1,-1,2,3,2^53,2^53+1,MIN,MAX}; reals {0.0,-0.0,1.0,-1.0,0.5,2.0,3.0,2^53,2^63,-2^63,1e19,-1e19,1e300,inf,-inf,NaN}; strings \"\",a,b,ab,abc as two distinct objects each; tables {}, {0:1} twice, {0:1,1:2}, {1:2,0:1}, {\"a\":{}}, {0:\"a\"}, two tables grown to 20+ entries and shrunk back; plus 96 fresh-vs-grown table pairs (8 key sets x growth by 6..60 fillers x filler phase before/after) with equal contents and different bucket layouts; function, native, closure values and a table holding a function. All pairs and all triples: reflexivity, symmetry, transitivity of ==; a==b => equal hashes (signed zero excepted) and 'a table keyed by a is hit by b'; a==b => neither is less and <= holds both ways; a<b => not b<a and a<=b; == and the order agree with the reference semantics (an integer against a real where one of them is not exactly representable in the other kind must agree with the exact numeric order or with the order after converting the integer to a real); truthiness; every operation returns on every element. Script seam: every constructible pair through compiled Equals/NotEquals/Less/LessOrEq cards agrees with the host operators. states = pairs; distinct_nontrivial = distinct (kind, kind, eq, lt, le, same-hash) signatures".into(),
+            rule: "finite universe built through the host API of one real VM: nil; ints {0,1,-1,2,3,2^53,2^53+1,MIN,MAX}; reals {0.0,-0.0,1.0,-1.0,0.5,2.0,3.0,2^53,2^63,-2^63,1e19,-1e19,1e300,inf,-inf,NaN}; strings \"\",a,b,ab,abc as two distinct objects each; tables {}, {0:1} twice, {0:1,1:2}, {1:2,0:1}, {\"a\":{}}, {0:\"a\"}, two tables grown to 20+ entries and shrunk back; plus 96 fresh-vs-grown table pairs (8 key sets x growth by 6..60 fillers x filler phase before/after) with equal contents and different bucket layouts; function, native, closure values and a table holding a function; plus every history of depth 4 over 15 operations (hash / compare / insert / overwrite / pop on each of three nested tables outer -> mid -> inner through its own handle), after every step each table must equal a structural copy built from fresh objects and hash like it. All pairs and all triples: reflexivity, symmetry, transitivity of ==; a==b => equal hashes (signed zero excepted) and 'a table keyed by a is hit by b'; a==b => neither is less and <= holds both ways; a<b => not b<a and a<=b; == and the order agree with the reference semantics (an integer against a real where one of them is not exactly representable in the other kind must agree with the exact numeric order or with the order after converting the integer to a real); truthiness; every operation returns on every element. Script seam: every constructible pair through compiled Equals/NotEquals/Less/LessOrEq cards agrees with the host operators. states = pairs; distinct_nontrivial = distinct (kind, kind, eq, lt, le, same-hash) signatures".into(),
             bound: "all pairs and triples of the universe (exhaustive)".into(),
             exhaustive: true,
             assumptions: vec![
